@@ -122,8 +122,62 @@ def _fresh_locals(fn):
     return fresh
 
 
+def _mutable_value(v):
+    if isinstance(v, (_ast.List, _ast.Dict, _ast.Set, _ast.ListComp, _ast.DictComp, _ast.SetComp)):
+        return True
+    if isinstance(v, _ast.BinOp):
+        return _mutable_value(v.left) or _mutable_value(v.right)
+    if isinstance(v, _ast.Call):
+        f = v.func
+        nm = f.id if isinstance(f, _ast.Name) else (f.attr if isinstance(f, _ast.Attribute) else '')
+        return nm in ('list', 'dict', 'set', 'defaultdict', 'OrderedDict', 'Counter', 'deque', 'Inventory', 'bytearray')
+    return False
+
+
+def _class_mutables(modinfo):
+    """class name -> names bound in the class body to a mutable object (one object shared by every instance, at any nesting depth)"""
+    out = {}
+    for mname in MODULES:
+        mod = modinfo.load(mname)
+        if mod is None:
+            continue
+        for c in _ast.walk(mod.tree):
+            if isinstance(c, _ast.ClassDef):
+                for st in c.body:
+                    tg = st.targets if isinstance(st, _ast.Assign) else ([st.target] if isinstance(st, _ast.AnnAssign) and st.value is not None else [])
+                    if tg and _mutable_value(st.value):
+                        for t in tg:
+                            if isinstance(t, _ast.Name):
+                                out.setdefault(c.name, set()).add(t.id)
+                for st in c.body:
+                    # an attribute the constructor binds on the instance shadows the class-level object
+                    if isinstance(st, _ast.FunctionDef) and st.name in ('__init__', '__post_init__'):
+                        for n in _ast.walk(st):
+                            if isinstance(n, (_ast.Assign, _ast.AnnAssign)):
+                                for t in (n.targets if isinstance(n, _ast.Assign) else [n.target]):
+                                    if isinstance(t, _ast.Attribute) and isinstance(t.value, _ast.Name) and t.value.id == 'self':
+                                        out.get(c.name, set()).discard(t.attr)
+    return out
+
+
+def _self_aliases(fn):
+    """local name -> attribute X for locals bound (only) by `name = self.X`"""
+    al, other = {}, set()
+    for n in _own_nodes(fn):
+        if isinstance(n, _ast.Assign):
+            for t in n.targets:
+                if isinstance(t, _ast.Name):
+                    v = n.value
+                    if isinstance(v, _ast.Attribute) and isinstance(v.value, _ast.Name) and v.value.id == 'self':
+                        al[t.id] = v.attr
+                    else:
+                        other.add(t.id)
+    return {k: v for k, v in al.items() if k not in other}
+
+
 def analyse(modinfo):
     funcs = _functions(modinfo)
+    cmut = _class_mutables(modinfo)
     byname = {}
     for (m, q), v in funcs.items():
         byname.setdefault(q.rsplit('.', 1)[-1], []).append((m, q))
@@ -162,6 +216,20 @@ def analyse(modinfo):
         qual = f'{key[0]}:{key[1]}'
         params = {a.arg for a in fn.args.args + fn.args.kwonlyargs} | ({fn.args.vararg.arg} if fn.args.vararg else set())
         fresh = _fresh_locals(fn)
+        alias = _self_aliases(fn) if cls is not None else {}
+        shared_attrs = cmut.get(cls, set()) if cls is not None else set()
+
+        def class_level(expr):
+            """the attribute of self the written object is reached through, when that attribute is bound to a mutable object in the
+            class body (shared by all instances): directly (self.X[...] / self.X.m()) or through a local alias (a = self.X; a[...] = ...)"""
+            b = expr
+            while isinstance(b, (_ast.Attribute, _ast.Subscript)):
+                if isinstance(b, _ast.Attribute) and isinstance(b.value, _ast.Name) and b.value.id == 'self':
+                    return b.attr if b.attr in shared_attrs and b is not expr else None
+                b = b.value
+            if isinstance(b, _ast.Name) and b.id in alias and alias[b.id] in shared_attrs and b is not expr:
+                return alias[b.id]
+            return None
         for d in fn.decorator_list:
             src = _ast.unparse(d)
             if 'lru_cache' in src or src.startswith('cache') or 'functools.cache' in src:
@@ -182,13 +250,21 @@ def analyse(modinfo):
                         base = base.value
                     if kind is None or not isinstance(base, _ast.Name):
                         continue
+                    ca = class_level(x)
+                    if ca is not None and key[1].rsplit('.', 1)[-1] not in ('__init__', '__post_init__'):
+                        sites.append((qual, f'classattr:self.{ca}', n.lineno, None))
+                        continue
                     sites.append((qual, f'{kind}:{_ast.unparse(x) if kind == "attr" else _ast.unparse(x.value)}', n.lineno, _classify(base.id, x, cls, params, fresh, key)))
             if isinstance(n, _ast.Call) and isinstance(n.func, _ast.Attribute) and n.func.attr in MUTATORS:
                 base = n.func.value
                 while isinstance(base, (_ast.Attribute, _ast.Subscript)):
                     base = base.value
                 if isinstance(base, _ast.Name):
-                    sites.append((qual, f'mut:{_ast.unparse(n.func)}', n.lineno, _classify(base.id, n.func.value, cls, params, fresh, key)))
+                    ca = class_level(n.func)
+                    if ca is not None and key[1].rsplit('.', 1)[-1] not in ('__init__', '__post_init__'):
+                        sites.append((qual, f'classattr:self.{ca}', n.lineno, None))
+                    else:
+                        sites.append((qual, f'mut:{_ast.unparse(n.func)}', n.lineno, _classify(base.id, n.func.value, cls, params, fresh, key)))
             if isinstance(n, _ast.Call) and isinstance(n.func, _ast.Name) and n.func.id == 'setattr':
                 sites.append((qual, 'call:setattr', n.lineno, None))
     return reach, sites
@@ -232,6 +308,28 @@ def write_sites(modinfo):
         seen.add(oid)
         out.append({'oid': oid, 'kind': 'frame', 'label': f'write site {what} is owned by the execution', 'verdict': 'proved' if j else 'failed',
                     'detail': j or 'write to state that may be shared between executions (no ownership justification)', 'lineno': lineno})
+    # ambient per-thread / per-process state (decimal context, locale, recursion limit): an execution neither sets it nor relies on
+    # the importing thread having set it
+    for mname in MODULES:
+        mod = modinfo.load(mname)
+        if mod is None:
+            continue
+        for n in _ast.walk(mod.tree):
+            hit = None
+            if isinstance(n, (_ast.Assign, _ast.AugAssign)):
+                for t in (n.targets if isinstance(n, _ast.Assign) else [n.target]):
+                    b = t
+                    while isinstance(b, (_ast.Attribute, _ast.Subscript)):
+                        b = b.value
+                    if isinstance(b, _ast.Call) and 'getcontext' in _ast.unparse(b.func):
+                        hit = 'decimal-context'
+            if isinstance(n, _ast.Call):
+                fn_src = _ast.unparse(n.func)
+                if fn_src.endswith(('setcontext', 'setlocale', 'setrecursionlimit', 'setswitchinterval')):
+                    hit = fn_src
+            if hit:
+                out.append({'oid': f'{mname}::ownership:global:ambient:{hit}', 'kind': 'frame', 'label': 'no write to ambient per-thread or per-process state',
+                            'verdict': 'failed', 'detail': 'sets thread-ambient state (other threads keep the default): results depend on the executing thread', 'lineno': n.lineno})
     out.append({'oid': 'beanquery:threadsafety::constant', 'kind': 'post', 'label': 'module advertises DB-API thread safety level 2',
                 'verdict': 'proved' if _threadsafety(modinfo) == 2 else 'failed', 'detail': f'threadsafety = {_threadsafety(modinfo)}', 'lineno': None})
     # registries are not written by reachable code
